@@ -44,6 +44,8 @@ def r2(orig, rule):
         return 'for %s in %s.iter() { let %s = *%s;' % (x, e, x, x)
     m = _m(r'for & (%s) in (.+?) \{' % ID, s)
     x, e = m.groups()
+    if e.startswith('& '):
+        e = e[2:]
     return 'for %s in %s.iter() { let %s = *%s;' % (x, e, x, x)
 
 
@@ -216,7 +218,55 @@ def r6b(orig, rule):
     return out
 
 
+def r8(orig, rule):
+    # for V in A.iter_mut() { BODY }   ->   for __i in 0..A.len() { BODY[*V := A[__i]] }
+    s = norm(orig)
+    m = _m(r'for (%s) in (%s) \. iter_mut \( \) \{ (.*) \}' % (ID, ID), s)
+    v, a, body = m.groups()
+    body2 = re.sub(r'\* %s\b' % v, '%s [ __i ]' % a, body)
+    if re.search(r'\b%s\b' % v, body2):
+        raise NoMatch('loop variable used other than through *%s' % v)
+    return 'for __i in 0..%s.len() { %s }' % (a, body2)
+
+
+def r18(orig, rule):
+    # assert_eq!(A, B);  ->  assert!(A == B);     (same panic condition; Verus has no spec for assert_failed's formatting machinery)
+    s = norm(orig)
+    m = _m(r'assert_eq ! \( (.+?) , (.+?) \) ;', s)
+    return 'assert!(%s == %s);' % m.groups()
+
+
+def r5(orig, rule):
+    # for &A in P.rev() {   (P a byte slice after R5sig)  ->  descending index loop
+    s = norm(orig)
+    m = _m(r'for & (%s) in (%s) \. rev \( \) \{' % (ID, ID), s)
+    a, p_ = m.groups()
+    return 'let mut __i = %s.len(); while __i > 0 { __i -= 1; let %s = %s[__i];' % (p_, a, p_)
+
+
+def r5sig(orig, rule):
+    # fn NAME<'b, P: Iterator<Item = &'b u8> + DoubleEndedIterator>(&self, pattern: P,) -> RET {   ->   fn NAME(&self, pattern: &[u8],) -> RET {
+    s = norm(orig)
+    m = _m(r"(.*?fn %s) < 'b , (%s) : Iterator < Item = & 'b u8 > \+ DoubleEndedIterator > \( (.*) \) (-> .+? )?\{" % (ID, ID), s)
+    head, p_, args, ret = m.groups()
+    args2 = re.sub(r'\b%s\b' % p_, '&[u8]', args)
+    return '%s(%s) %s{' % (head, args2, ret or '')
+
+
+def r16(orig, rule):
+    # implicit &mut Box<T> -> &mut T deref coercion at a call argument made explicit:  f(X);  ->  let __r: &mut T = &mut **X; f(__r);
+    s = norm(orig)
+    parts = rule.split(None, 2)
+    x, ty = parts[1], parts[2]
+    m = _m(r'(.+?) \( %s \) ;' % re.escape(x), s)
+    return 'let __r: &mut %s = &mut **%s; %s(__r);' % (ty, x, m.group(1))
+
+
 GENERATORS = {
+    'R12': r12, 'R16': r16,
+    'R5': r5, 'R5sig': r5sig,
+    'R18': r18,
+    'R8': r8,
     'R6sig': r6sig, 'R6for': r6for, 'R6b': r6b,
     'RB': rb,
     'R1': r1, 'R2': r2, 'R3': r3, 'R4': r4, 'R9': r9, 'R9t': r9t, 'R10': r10, 'R10t': r10t, 'R11': r11,
